@@ -466,3 +466,81 @@ Qed.
 
 Theorem distributor_inv c g h : 1 <= g -> dhist_wf h -> Inv (dsrun c g h).
 Proof. intros G W. apply dsrun_inv_from; auto. apply inv_init; auto. Qed.
+
+(* ---- an address is paid at most once per epoch ---------------------------------------------------------- *)
+Definition paid_ids_of (who : Z) (f : deffect) : list Z :=
+  match f with FPaid w l _ => if w =? who then l else [] | _ => [] end.
+Definition paid_ids (who : Z) (fs : list deffect) : list Z := flat_map (paid_ids_of who) fs.
+
+Lemma cfind_cset_same k v l : cfind k (cset k v l) = Some v.
+Proof.
+  induction l as [|[k' v'] r IH]; cbn; [rewrite Z.eqb_refl; auto|].
+  destruct (k =? k') eqn:E; cbn; rewrite E; auto.
+Qed.
+Lemma cfind_cset_other k k2 v l : k2 <> k -> cfind k2 (cset k v l) = cfind k2 l.
+Proof.
+  intro N. induction l as [|[k' v'] r IH]; cbn.
+  - destruct (k2 =? k) eqn:E; [apply Z.eqb_eq in E; congruence | reflexivity].
+  - destruct (k =? k') eqn:E; cbn.
+    + apply Z.eqb_eq in E; subst k'. destruct (k2 =? k) eqn:E2; [apply Z.eqb_eq in E2; congruence | reflexivity].
+    + destruct (k2 =? k'); auto.
+Qed.
+Lemma NoDup_app_intro {A} (a b : list A) : NoDup a -> NoDup b -> (forall x, In x a -> ~ In x b) -> NoDup (a ++ b).
+Proof.
+  intros NA NB. induction NA as [|x r N ND IH]; intro D; cbn [app]; auto. constructor.
+  - intro I. apply in_app_or in I. destruct I as [I|I].
+    + apply N. exact I.
+    + apply (D x); [left; reflexivity | exact I].
+  - apply IH. intros y Iy. apply D. right. exact Iy.
+Qed.
+
+Definition Paid (who : Z) (s : dstate) (pre : list deffect) : Prop :=
+  NoDup (paid_ids who pre) /\
+  forall i, In i (paid_ids who pre) -> exists cu, cfind who (d_cursor s) = Some cu /\ i <= cu.
+
+Lemma paid_step c who now s o s' f pre :
+  Inv s -> dop_wf o -> dstep c now s o = Ok (s', f) -> Paid who s pre -> Paid who s' (pre ++ [f]).
+Proof.
+  intros I W H [ND LE]. unfold Paid, paid_ids in *. rewrite flat_map_app. cbn [flat_map]. rewrite app_nil_r.
+  destruct o as [ok fee|w fb shares|admin g]; cbn [dstep] in H.
+  - apply bind_ok in H as [s1 [H1 H]]. inversion H; subst. cbn [paid_ids_of]. rewrite app_nil_r.
+    destruct (new_epoch_spec _ _ _ _ _ _ I W H1) as (Hc & _). rewrite Hc. auto.
+  - apply bind_ok in H as [[s1 p] [H1 H]]. inversion H; subst. cbn [fst snd paid_ids_of].
+    destruct (claim_spec _ _ _ _ _ _ I W H1) as (_ & _ & _ & _ & _ & _ & _ & newest & rest & EC & CU & FA).
+    destruct (w =? who) eqn:Ew.
+    + apply Z.eqb_eq in Ew; subst w. rewrite CU. split.
+      * apply NoDup_app_intro; auto.
+        -- apply (claimable_nodup s who fb). apply ids_exact_nodup, (inv_ids s I).
+        -- intros i Ii Q. apply in_map_iff in Q as (e & <- & Ie). destruct (FA e Ie) as (_ & CO & _).
+           destruct (LE _ Ii) as (cu & Hcu & Lcu). unfold cursor_ok in CO. rewrite Hcu in CO. lia.
+      * intros i Ii. exists (de_id newest). rewrite cfind_cset_same. split; auto.
+        apply in_app_or in Ii as [Ii|Ii].
+        -- destruct (LE _ Ii) as (cu & Hcu & Lcu).
+           assert (In newest (claimable s who fb)) as In0 by (rewrite EC; left; auto).
+           destruct (FA _ In0) as (_ & CO & _). unfold cursor_ok in CO. rewrite Hcu in CO. lia.
+        -- apply in_map_iff in Ii as (e & <- & Ie). apply (FA e Ie).
+    + apply Z.eqb_neq in Ew. rewrite app_nil_r, CU. split; auto.
+      intros i Ii. rewrite cfind_cset_other by auto. auto.
+  - apply bind_ok in H as [s1 [H1 H]]. inversion H; subst. cbn [paid_ids_of]. rewrite app_nil_r.
+    destruct (set_grace_spec _ _ _ _ I H1) as (_ & _ & _ & _ & _ & Hc & _). rewrite Hc. auto.
+Qed.
+
+Lemma paid_run c who h : forall s pre, Inv s -> dhist_wf h -> Paid who s pre ->
+  NoDup (paid_ids who (pre ++ dseffects c s h)).
+Proof.
+  induction h as [|e r IH]; intros s pre I W P; cbn [dseffects].
+  - rewrite app_nil_r. apply P.
+  - inversion W; subst. destruct (dstep c (fst e) s (snd e)) as [[s' f]| |] eqn:E; auto.
+    replace (pre ++ f :: dseffects c s' r) with ((pre ++ [f]) ++ dseffects c s' r) by (rewrite <- app_assoc; reflexivity).
+    apply IH; auto.
+    + eapply dstep_inv; eauto.
+    + eapply paid_step; eauto.
+Qed.
+
+Theorem distributor_paid_once c g h who :
+  1 <= g -> dhist_wf h -> NoDup (paid_ids who (dseffects c (dinit g) h)).
+Proof.
+  intros G W. apply (paid_run c who h (dinit g) []); auto.
+  - apply inv_init; auto.
+  - split; [constructor | intros i []].
+Qed.
